@@ -27,13 +27,13 @@ import (
 
 const (
 	obCorr   = "tie: model serveHTTP = jsonapi.API.ServeHTTP (status, content type, headers, canonical document)"
-	obDoc    = "oracle: document invariants on the real response (no panic, media type, well-formed JSON, jsonapi.version, never data+errors, status-from-errors, resource identity, link form)"
+	obDoc    = "oracle: document invariants on the real response (no panic, media type, well-formed JSON, jsonapi.version, never data+errors, status-from-errors, resource identity, link form, every member name a valid member name)"
 	obRef    = "oracle: real status = RefStatus (independent Go transcription of the documented rules)"
 	obSpec   = "cross-check: Lean Spec.refStatus = Go RefStatus on the abstracted request"
 	obState  = "oracle: state independence — a request served again later in the same process (after other requests, on other API values) gets its first-time answer"
 	keyF19a  = "F-19a-marshal-fallback-not-a-document"
 	keyF19b  = "F-19b-relationship-route-without-get-404"
-	ruleText = "cases = (generated resource schema, request); requests: method(10) × path depth 0..6 (known/unknown type, ids incl. empty/unicode/'relationships', relationship/attribute/unknown names) × 25 hand-picked Accept variants + systematic Accept sequences (all sequences of 1 and 2 instance kinds over 10 kinds in both orders, sampled length 3..5 with an acceptable and an unacceptable JSON:API instance at random positions, each in up to 5 line layouts) × 61 query-key variants × 24 body families (matching/conflicting/undecodable) ; per schema a method×route grid and an Accept×query grid are enumerated, the rest is random; history dimension: per schema several confusable families (same Accept values split differently over header lines, same path with other method/Accept/query/body/spelling, same request on another schema) served in random order and again, plus a final re-serve pass over a sample of everything served (answers must equal the first-time answers). distinct = distinct (schema, abstract request); non-trivial = negotiation and the parameter check pass and the path's first component is a defined type at depth 1..4 (the request reaches the routing tree)"
+	ruleText = "cases = (generated resource schema, request); requests: method(10) × path depth 0..6 (known/unknown type, ids incl. empty/unicode/'relationships', relationship/attribute/unknown names) × 25 hand-picked Accept variants + systematic Accept sequences (all sequences of 1 and 2 instance kinds over 10 kinds in both orders, sampled length 3..5 with an acceptable and an unacceptable JSON:API instance at random positions, each in up to 5 line layouts) × 61 query-key variants + character-class probes (every ASCII character and its aliases modulo 2^7, 2^8, 2^16 in several blocks, Unicode look-alikes, invalid UTF-8 — at the first / inner / last / only position of the parameter family (implementation-specific, `page`, `sort` skeletons) and of bracketed names, after and before brackets; the same names as type / attribute / relationship names through NewSchema; as path segments) × 24 body families (matching/conflicting/undecodable) ; per schema a method×route grid and an Accept×query grid are enumerated, the rest is random; history dimension: per schema several confusable families (same Accept values split differently over header lines, same path with other method/Accept/query/body/spelling, same request on another schema) served in random order and again, plus a final re-serve pass over a sample of everything served (answers must equal the first-time answers). distinct = distinct (schema, abstract request); non-trivial = negotiation and the parameter check pass and the path's first component is a defined type at depth 1..4 (the request reaches the routing tree)"
 )
 
 type harness struct {
@@ -124,6 +124,7 @@ func normalise(s string) string {
 func judge(c *Case, real Real, reply string) *verdict {
 	v := &verdict{real: real, realObs: canonical(real), goRef: refStatus(&c.World, &c.Req)}
 	v.fails = documentOracles(c, real)
+	v.fails = append(v.fails, memberNameOracle(real)...)
 	if real.Panic == "" && real.Status != v.goRef {
 		v.fails = append(v.fails, failure{"ref-status", fmt.Sprintf("%s %q (accept %q, query %q, body %.120q) answered %d, RefStatus is %d", c.Req.Method, c.Req.Path, c.Req.Accept, c.Req.RawQuery, c.Req.Body, real.Status, v.goRef)})
 	}
@@ -657,6 +658,20 @@ func main() {
 			fmt.Fprintln(os.Stderr, err)
 			os.Exit(2)
 		}
+		if len(c.World.Types) == 0 {
+			// not a (schema, request) case: a status-site or newSchemaOK report — re-run those two passes
+			fmt.Println("replay: no schema in the case; re-running the status-site comparison and the NewSchema name probes")
+			h.checkStatusSites()
+			h.schemaNameProbes()
+			run.Finish(h.model)
+			return
+		}
+		if _, err := c.World.build(); err != nil && !worldNamesValid(&c.World) {
+			// replay of a schema-name probe: the schema has a name that is not a member name; rejecting it is the correct answer
+			fmt.Printf("replay: jsonapi.NewSchema rejects the schema (%v); it has a name that is not a member name, so this is the demanded behaviour\n", err)
+			run.Finish(h.model)
+			return
+		}
 		v, err := h.evalOne(&c)
 		if err != nil {
 			fmt.Fprintln(os.Stderr, "replay:", err)
@@ -673,6 +688,10 @@ func main() {
 			h.run.Violate(v.kind(), v.what(), classify(&c, v), v.kind() == "correspondence", c)
 		}
 		run.Finish(h.model)
+		return
+	}
+	if os.Getenv("C19_DUMP_SITES") != "" {
+		h.checkStatusSites()
 		return
 	}
 	if os.Getenv("C19_SELFTEST") != "" {
@@ -698,6 +717,9 @@ func main() {
 			h.report(c, v)
 		}
 	}
+
+	h.checkStatusSites()
+	h.schemaNameProbes()
 
 	worlds := run.Scale(40, 1200)
 	randomPer := run.Scale(2500, 3000)
@@ -727,11 +749,13 @@ func main() {
 			run.Count("handlers(get,patch,create,delete):" + hs)
 		}
 		h.worlds = append(h.worlds, worldEntry{w: w, schema: schema, sexp: w.sexp().String()})
+		h.tieNewSchemaAccepted(&w)
 		widx := len(h.worlds) - 1
 		routes, nego := gridRequests(r, &w)
 		h.runBatch(w, schema, routes, "route-grid")
 		h.runBatch(w, schema, nego, "accept-query-grid")
 		h.runBatch(w, schema, acceptSequenceRequests(r, &w, run.Scale(60, 150)), "accept-sequences")
+		h.runBatch(w, schema, charclassRequests(r.Fork(), &w, wi%charclassParts, charclassParts), "charclass-probes")
 		var reqs []ReqSpec
 		for i := 0; i < randomPer; i++ {
 			reqs = append(reqs, genRequest(r.Fork(), &w))
